@@ -302,6 +302,7 @@ func analyse(x *Exec) *RunResult {
 			for _, v := range s.classify() {
 				add(v)
 			}
+			countOracle(x, wr, add, cnt)
 			continue
 		}
 		for k, v := range s.relax {
@@ -588,4 +589,50 @@ func spellings(m *Model) []string {
 	}
 	sort.Strings(out)
 	return out
+}
+
+// countOracle is the model-free form of C12's state check, used when no
+// linearisation exists (so the model's final watch set is not available): at
+// the final quiescence of an open Watcher the number of kernel marks, the size
+// of every internal table and the length of the WatchList the implementation
+// itself returns must be one and the same number.
+func countOracle(x *Exec, wr *WatcherRec, add func(Violation), cnt map[string]int) {
+	if wr.Inst == nil || len(wr.Inst.Dropped) > 0 {
+		return
+	}
+	var snap *Snapshot
+	for i := range wr.Snaps {
+		if wr.Snaps[i].Label == "final" {
+			snap = &wr.Snaps[i]
+		}
+	}
+	if snap == nil || !snap.MarksOK {
+		return
+	}
+	for _, c := range x.H {
+		if c.W == wr.Idx && c.Kind == OpClose && c.Inv <= snap.Step {
+			return
+		}
+	}
+	cnt["count_state_checks"]++
+	n := len(snap.Marks)
+	for _, sz := range snap.MapSizes {
+		if sz != n {
+			add(Violation{Kind: "table-size", Watcher: wr.Idx, Site: "tables-vs-marks",
+				Detail: fmt.Sprintf("at final quiescence internal tables hold %v entries while the kernel holds %d watches for this Watcher", snap.MapSizes, n)})
+			break
+		}
+	}
+	for _, c := range x.H {
+		if c.W == wr.Idx && c.Kind == OpWatchList && c.Phase == "epilogue" && c.Err == "" {
+			if len(c.List) > n {
+				add(Violation{Kind: "kernel-mark-missing", Watcher: wr.Idx, Site: "listed-paths-vs-marks",
+					Detail: fmt.Sprintf("at final quiescence WatchList returns %d paths %v but the kernel holds only %d watches", len(c.List), c.List, n)})
+			} else if len(c.List) < n {
+				add(Violation{Kind: "kernel-mark-orphan", Watcher: wr.Idx, Site: "marks-vs-listed-paths",
+					Detail: fmt.Sprintf("at final quiescence the kernel holds %d watches but WatchList returns only %d paths %v", n, len(c.List), c.List)})
+			}
+			break
+		}
+	}
 }
